@@ -1065,7 +1065,12 @@ fn struct_view(doc: &[u8]) -> Option<BTreeMap<String, String>> {
     for (k, v) in &m {
         let name = match k {
             Cbor::Text(t) => t.clone(),
-            Cbor::Bytes(b) => String::from_utf8(b.clone()).ok()?,
+            // field identifiers may also be given as byte strings; anything else (integers,
+            // non-UTF-8 bytes, unknown names) is an unknown field the struct decoder skips
+            Cbor::Bytes(b) => match String::from_utf8(b.clone()) {
+                Ok(t) => t,
+                Err(_) => continue,
+            },
             _ => continue,
         };
         if FIELDS.contains(&name.as_str()) && !matches!(v, Cbor::Null) {
@@ -1101,6 +1106,42 @@ struct StateCtx<'a> {
     strict: bool,
 }
 
+async fn apply_edits(fork: &InMemory, t: &Tamper) {
+    for (path, edit) in &t.edits {
+        let p = Path::from(path.as_str());
+        match edit {
+            Some(b) => {
+                fork.put(&p, PutPayload::from(b.clone())).await.expect("tamper put");
+            }
+            None => {
+                let _ = fork.delete(&p).await;
+            }
+        }
+    }
+}
+
+/// Behavioural test for the documented compatibility-mode downgrade window: does a store with
+/// strict metadata authentication reject the tampered key on every metadata-dependent read path?
+/// The two modes differ only in accepting unauthenticated legacy metadata (and in skipping
+/// undecodable documents in listings), so "served in compatibility mode, rejected in strict
+/// mode" is exactly "accepted as legacy metadata".
+async fn strict_mode_rejects(s: &State, t: &Tamper, ks: &KeyState) -> bool {
+    let fork = s.base.fork();
+    apply_edits(&fork, t).await;
+    let store = build_store(Arc::new(fork), s.chunk, true);
+    let path = Path::from(ks.key.as_str());
+    if store.head(&path).await.is_ok() {
+        return false;
+    }
+    if let Ok(r) = store.get(&path).await {
+        if r.bytes().await.is_ok() {
+            return false;
+        }
+    }
+    let listed: object_store::Result<Vec<ObjectMeta>> = store.list(None).try_collect().await;
+    !matches!(listed, Ok(l) if l.iter().any(|m| m.location.as_ref() == ks.key))
+}
+
 /// Applies one tamper to a fork of the state and judges every read path.
 /// Returns false when a violation was recorded.
 async fn run_tamper(ctx: &StateCtx<'_>, t: &Tamper, idx: usize, warm: bool, st: &mut Stats) -> bool {
@@ -1118,17 +1159,7 @@ async fn run_tamper(ctx: &StateCtx<'_>, t: &Tamper, idx: usize, warm: bool, st: 
     } else {
         None
     };
-    for (path, edit) in &t.edits {
-        let p = Path::from(path.as_str());
-        match edit {
-            Some(b) => {
-                fork.put(&p, PutPayload::from(b.clone())).await.expect("tamper put");
-            }
-            None => {
-                let _ = fork.delete(&p).await;
-            }
-        }
-    }
+    apply_edits(&fork, t).await;
     let store = match warm_store {
         Some(w) => w,
         None => build_store(Arc::new(fork), s.chunk, ctx.strict),
@@ -1230,6 +1261,17 @@ async fn run_tamper(ctx: &StateCtx<'_>, t: &Tamper, idx: usize, warm: bool, st: 
                         st.sample(move || json!({"monitor": "compat_mode_downgrade_window (not asserted)", "tamper": what,
                             "key": key, "read_path": path_kind, "got": w, "edits": edits}));
                     }
+                }
+                Outcome::Wrong(w) if !ctx.strict && strict_mode_rejects(s, t, ks).await => {
+                    // the struct-level view above missed it, the behaviour shows it: accepted as
+                    // legacy metadata (documented downgrade window of the compatibility mode)
+                    all_original = false;
+                    st.count("compat_downgrade_window_forged_legacy_document_served");
+                    st.count(&format!("compat_downgrade_window_served_wrong_result:{class}:{path_kind}"));
+                    let (what, w, key) = (t.what.clone(), w.clone(), ks.key.clone());
+                    let edits = describe_edits(s, t);
+                    st.sample(move || json!({"monitor": "compat_mode_downgrade_window (not asserted)", "tamper": what,
+                        "key": key, "read_path": path_kind, "got": w, "edits": edits}));
                 }
                 Outcome::Wrong(w) => {
                     all_original = false;
@@ -1697,7 +1739,7 @@ fn main() {
     run.assume("whole-key rollback (previous metadata document over a still existing previous payload) is not decidable by the store: counted, not asserted");
     run.assume("compatibility mode (the default) accepts a metadata document without any of an/at/av/g as genuine legacy metadata by documented design (downgrade window, closed by with_strict_metadata_auth): tampers whose installed document looks like that are counted, not asserted, in compatibility mode and must be rejected on every read path in strict mode");
     let t = run.tier;
-    let chunks: Vec<u64> = t.pick(vec![1, 7], vec![1, 7, 16]);
+    let chunks: Vec<u64> = vec![1, 7, 16];
     let n_states = (chunks.len() * 6 * METHODS.len()) as u64 * t.pick(1, 3);
     let mut exhaustive = true;
     // the nonce workload goes first: its chunk nonces enter the table before the many metadata
